@@ -242,3 +242,12 @@ Definition schedule_agrees (full : bool) (seq0 req0 : Z) (evs : list ev) (observ
   | Some s => obs_eqb full (wire_obs s) observed
   | None => false
   end.
+
+(* C16: the receiver side of a renewal.  The server re-keys its ONE instance in place when it handles the renewal
+   request, so from then on it can only verify chunks secured by the newest token: a chunk is accepted iff no chunk of
+   a newer instance was written before it, i.e. iff the instances along the wire never go back. *)
+Fixpoint tokens_monotone_rev (w : list chunk) : bool :=
+  match w with
+  | c :: ((p :: _) as rest) => (c_inst p <=? c_inst c)%nat && tokens_monotone_rev rest
+  | _ => true
+  end.
